@@ -79,7 +79,9 @@ def model_part(ctx, pid):
     runs = [('single', True, pid == 'C01', False), ('single', True, False, True)]
     if not ctx.quick:
         runs += [('chain2', False, False, False), ('fan2', False, False, False), ('chain2', False, False, True), ('fan2', False, False, True),
-                 ('chain2', True, False, False), ('fan2', True, False, False)]
+                 ('chain2', True, False, False), ('fan2', True, False, False),
+                 # a disabled step feeding another; a step stopped by another's success
+                 ('dis2', False, False, False), ('dis2', False, False, True), ('stop2', False, False, False), ('stop2', False, False, True)]
     for family, cancel, live, split in runs:
         ok, viol, st, out = run_one(ctx, family, inv, cancel, liveness=live, split=split)
         ctx.cov(states=st.get('distinct', 0), transitions=st.get('generated', 0))
@@ -196,19 +198,19 @@ def validate_events(evs, family, work, name, keep=False, custom=None):
     return ok, (int(m.group(1)) if m else None), ran, st, out[-600:]
 
 
-GEN_PROFILE = dict(max_steps=4, p_tag=0.0, p_enabled=0.0, p_stop=0.0, p_waitfor=0.3, p_deployexpr=0.2, p_sum=0.4, p_multi=0.7, p_error=0.2, p_alt=0.15,
+GEN_PROFILE = dict(max_steps=4, p_tag=0.0, p_enabled=0.3, p_stop=0.35, p_waitfor=0.3, p_deployexpr=0.2, p_sum=0.4, p_multi=0.7, p_error=0.2, p_alt=0.15,
                    p_crash=0.1, p_deployfail=0.1, engine_outputs=True)
 
 
 def generated_scenarios(rng, n):
     """generated workflows inside the fragment Engine.tla models (Family = "custom"): plugin steps, literal and plain
-    reference inputs, wait_for, deploy-time expressions, several outputs; random outcomes, noise, cancellation"""
+    reference inputs, wait_for, deploy-time expressions, enabled (true and false), stop_if, several outputs; random outcomes, noise, cancellation"""
     out = []
     tries = 0
     while len(out) < n and tries < 40 * n + 40:
         tries += 1
         wf, oc, script, inp = gen.gen_workflow(rng, GEN_PROFILE)
-        cu = strict.custom_of(wf)
+        cu = strict.custom_of(wf, oc)
         if cu is None:
             continue
         cancel = rng.choice([None, None, None, 5, 20, 60])
